@@ -52,6 +52,8 @@ pub enum Tx {
     PubAck(u16),
     PubRec(u16),
     PubRel(u16),
+    /// PUBREL that carries MQTT 5 properties (a reason string); plain PUBREL in 3.1.1
+    PubRelProps(u16),
     PubComp(u16),
     Subscribe {
         pkid: u16,
@@ -175,7 +177,7 @@ pub fn tx_bytes(tx: &Tx, v5: bool) -> Result<BytesMut, String> {
             }
             Tx::PubAck(id) => c4::Packet::PubAck(c4::PubAck::new(*id)),
             Tx::PubRec(id) => c4::Packet::PubRec(c4::PubRec::new(*id)),
-            Tx::PubRel(id) => c4::Packet::PubRel(c4::PubRel::new(*id)),
+            Tx::PubRel(id) | Tx::PubRelProps(id) => c4::Packet::PubRel(c4::PubRel::new(*id)),
             Tx::PubComp(id) => c4::Packet::PubComp(c4::PubComp::new(*id)),
             Tx::Subscribe { pkid, filters, .. } => {
                 let mut s = c4::Subscribe::new_many(
@@ -222,6 +224,10 @@ pub fn tx_bytes(tx: &Tx, v5: bool) -> Result<BytesMut, String> {
             Tx::PubAck(id) => c5::Packet::PubAck(c5::PubAck::new(*id, None)),
             Tx::PubRec(id) => c5::Packet::PubRec(c5::PubRec::new(*id, None)),
             Tx::PubRel(id) => c5::Packet::PubRel(c5::PubRel::new(*id, None)),
+            Tx::PubRelProps(id) => c5::Packet::PubRel(c5::PubRel::new(
+                *id,
+                Some(c5::PubRelProperties { reason_string: Some("released".into()), user_properties: vec![] }),
+            )),
             Tx::PubComp(id) => c5::Packet::PubComp(c5::PubComp::new(*id, None)),
             Tx::Subscribe {
                 pkid,
